@@ -23,6 +23,16 @@ L  Lifetimes: every context ends with close_db_conn (one more schedule point), a
         start-up and page work of the workers, so contexts close while others work and
         others open after a close.  What close_db_conn does to the environment is recorded
         in the close event (Trace_Workers: a close touches no file).
+J  Journal mode / provenance: the mode is a state component of the database FILE in the model
+        (Workers.tla, inode field jm; every open re-establishes WAL: invariant WalAtWork; in rollback
+        mode an open cursor of one worker blocks the commit of another: Demo_Workers_rollback).
+        Scenario field prov: "built" (as before), "lib" (the backup file was written by backup_db()
+        of an earlier context of the REAL library, which then overwrote the pages and closed - a
+        re-run), "rbj" (the files are rollback-journal databases); field rdr: which workers keep
+        the get_all_pages() cursor (0 = all, k = worker k only: one long-lived reader beside
+        writers).  Gen_Workers_prov(q) enumerates page-work / start-up interleavings on these.
+        The journal mode the file at the path has after each start-up script is read from the
+        file header and compared by Trace_Workers (DRIFT-only item `obs`).
 V  The (process, operation, result) trace actually performed is validated by TLC
         against Trace_Workers (operation-level semantics of the same module), for the
         replays and for a stress mode: 2..16 free-running workers with random start
@@ -135,19 +145,106 @@ def build_db(path: Path, v: str, boot: bool) -> None:
         raise RuntimeError("could not build scenario database")
 
 
+def build_rerun(path: Path, boot: bool) -> None:
+    """The files an earlier run of the library leaves: a context creates the database, stores the
+    pages (version B), calls backup_db(), overwrites the pages (version M) and closes."""
+    path.parent.mkdir(parents=True, exist_ok=True)
+    pid = os.fork()
+    if pid == 0:
+        try:
+            _quiet()
+            from wikitextprocessor import Wtp
+
+            w = Wtp(db_path=str(path), quiet=True)
+            for t, ns, body, model in version_pages("B"):
+                w.add_page(t, ns, body=body, model=model)
+            if boot:
+                w.add_page(BOOT_TITLE, 828, body="", model="Scribunto")
+            w.backup_db()
+            for t, ns, body, model in version_pages("M"):
+                w.add_page(t, ns, body=body, model=model)
+            w.close_db_conn()
+            os._exit(0)
+        except BaseException:
+            import traceback
+
+            traceback.print_exc()
+            os._exit(3)
+    _, st = os.waitpid(pid, 0)
+    if os.waitstatus_to_exitcode(st) != 0:
+        raise RuntimeError("could not build the re-run scenario (backup_db)")
+    if not (path.parent / BAKNAME).exists():
+        raise RuntimeError("backup_db() left no file under the backup name")
+
+
+def journal_mode_of(path) -> str:
+    """Journal mode recorded in the header of a database file (bytes 18/19: 1 = rollback journal,
+    2 = WAL); "" when there is no readable header.  A plain read: takes no SQLite lock."""
+    try:
+        with open(path, "rb") as f:
+            h = f.read(20)
+    except OSError:
+        return ""
+    if len(h) < 20 or not h.startswith(b"SQLite format 3"):
+        return ""
+    return "wal" if h[18] == 2 and h[19] == 2 else "del" if h[18] == 1 and h[19] == 1 else "mixed"
+
+
+def to_rollback_journal(path: Path) -> None:
+    con = sqlite3.connect(str(path))
+    try:
+        mode = con.execute("PRAGMA journal_mode = DELETE").fetchone()[0]
+    finally:
+        con.close()
+    if mode != "delete" or journal_mode_of(path) != "del":
+        raise RuntimeError(f"could not put {path} into rollback-journal mode")
+
+
+PROVS = ("built", "lib", "rbj")
+
+
+def scn_key(scn: dict) -> tuple:
+    return (bool(scn["bak"]), bool(scn["boot"]), scn.get("prov", "built"))
+
+
+def cursors_of(scn: dict, n: int) -> list:
+    """Which workers keep the get_all_pages() cursor open (scenario fields cursor, rdr)."""
+    rdr = scn.get("rdr", 0)
+    return [bool(scn["cursor"]) and (rdr == 0 or rdr == i) for i in range(1, n + 1)]
+
+
 def build_scenarios(root: Path) -> dict:
-    """(bak, boot) -> template directory."""
+    """(bak, boot, prov) -> template directory."""
     res = {}
     for bak in (False, True):
         for boot in (False, True):
-            d = root / f"scn_{int(bak)}{int(boot)}"
-            build_db(d / DBNAME, "M", boot)
-            if bak:
-                build_db(d / "b" / DBNAME, "B", boot)
-                (d / "b" / DBNAME).rename(d / BAKNAME)
-                shutil.rmtree(d / "b")
-            res[(bak, boot)] = str(d)
+            for prov in PROVS:
+                if prov == "lib" and not bak:
+                    continue
+                d = root / f"scn_{int(bak)}{int(boot)}{prov}"
+                if prov == "lib":
+                    build_rerun(d / DBNAME, boot)
+                else:
+                    build_db(d / DBNAME, "M", boot)
+                    if bak:
+                        build_db(d / "b" / DBNAME, "B", boot)
+                        (d / "b" / DBNAME).rename(d / BAKNAME)
+                        shutil.rmtree(d / "b")
+                if prov == "rbj":
+                    to_rollback_journal(d / DBNAME)
+                    if bak:
+                        to_rollback_journal(d / BAKNAME)
+                stray = sorted(x.name for x in d.iterdir() if x.name not in (DBNAME, BAKNAME))
+                if stray:
+                    raise RuntimeError(f"scenario {d.name}: unexpected files {stray}")
+                res[(bak, boot, prov)] = str(d)
     return res
+
+
+def fixture_modes(scns: dict) -> dict:
+    return {f"bak={int(k[0])},boot={int(k[1])},prov={k[2]}": {"main": journal_mode_of(Path(d) / DBNAME),
+                                                              "backup": journal_mode_of(Path(d) / BAKNAME)}
+            for k, d in sorted(scns.items())}
 
 
 def read_store(d: Path):
@@ -283,6 +380,12 @@ def install_wrappers(dbdir: str, sync) -> None:
     os.unlink, os.remove = mk_unlink(o_unlink), mk_unlink(o_remove)
     os.rename, os.replace = mk_rename(o_rename), mk_rename(o_replace)
 
+    mainpath = os.path.join(dbdir, DBNAME)
+
+    def ok_jm(r):
+        # result of a start-up script operation + the journal mode the file at the path now has
+        return "ok jm=" + journal_mode_of(mainpath)
+
     class Conn(sqlite3.Connection):
         def execute(self, sql, params=()):
             s = sql.lstrip().upper()
@@ -302,11 +405,11 @@ def install_wrappers(dbdir: str, sync) -> None:
                 return sync("read", "", lambda: base.execute(sql, params), lambda r: {"title": "", "found": True, "tag": "none"})
             if s.startswith(("INSERT", "UPDATE", "DELETE", "REPLACE")):
                 return sync("write", "", lambda: base.execute(sql, params), lambda r: "ok")
-            return sync("script", "", lambda: base.execute(sql, params), lambda r: "ok")
+            return sync("script", "", lambda: base.execute(sql, params), ok_jm)
 
         def executescript(self, script):
             base = super()
-            return sync("script", "", lambda: base.executescript(script), lambda r: "ok")
+            return sync("script", "", lambda: base.executescript(script), ok_jm)
 
         def commit(self):
             base = super()
@@ -482,9 +585,11 @@ def spawn_one(idx: int, dbdir: str, order: list, cursor: bool, mode: str, seed: 
     return Child(idx, pid, c2p_r, p2c_w)
 
 
-def spawn(n: int, dbdir: str, orders: list, cursor: bool, mode: str, seed: int, offsets: list, fds=None, lives=None) -> list:
+def spawn(n: int, dbdir: str, orders: list, cursor, mode: str, seed: int, offsets: list, fds=None, lives=None) -> list:
+    """cursor: bool (every worker) or list of bool per worker."""
     fds = [] if fds is None else fds
-    return [spawn_one(i, dbdir, orders[i - 1], cursor, mode, seed, offsets[i - 1], fds, (lives[i - 1] if lives else ("hold", 0.0)))
+    cur = list(cursor) if isinstance(cursor, (list, tuple)) else [bool(cursor)] * n
+    return [spawn_one(i, dbdir, orders[i - 1], cur[i - 1], mode, seed, offsets[i - 1], fds, (lives[i - 1] if lives else ("hold", 0.0)))
             for i in range(1, n + 1)]
 
 
@@ -570,6 +675,15 @@ def summarise(cls: str, results: list, tracked: set):
     return "ok"
 
 
+def jm_of_results(results) -> str:
+    """Journal mode reported with the last start-up script operation of a step ("" = not observed)."""
+    jm = ""
+    for r in results:
+        if r and not r.get("exc") and isinstance(r.get("result"), str) and r["result"].startswith("ok jm="):
+            jm = r["result"][6:]
+    return jm
+
+
 def step(kids, c: Child, tracked, trace, sched_label=None, timeout=9.0):
     """Let child c perform one model-level step (coalescing operations of one class)."""
     cls = c.want["cls"]
@@ -585,6 +699,8 @@ def step(kids, c: Child, tracked, trace, sched_label=None, timeout=9.0):
             continue
         break
     ev = {"p": c.idx, "cls": cls, "r": summarise(cls, results, tracked), "n": len(results)}
+    if cls == "script":
+        ev["jm"] = jm_of_results(results)
     if sched_label is not None and CLS_OF_LABEL.get(sched_label) != cls:
         ev["unexpected"] = sched_label
     trace.append(ev)
@@ -767,6 +883,8 @@ def run_free(scn_dir: str, work: Path, n: int, orders: list, cursor: bool, seed:
             trace.append({"p": p, "cls": cls, "_rs": [r], "t0": us0, "t1": us1, "w0": w0, "w1": us1})
             last_of[p] = len(trace) - 1
     for ev in trace:
+        if ev["cls"] == "script":
+            ev["jm"] = jm_of_results(ev["_rs"])
         ev["r"] = summarise(ev["cls"], ev.pop("_rs"), tracked)
     trace.sort(key=lambda e: e["t1"])
     return trace, finals, store
@@ -821,9 +939,9 @@ def run_contended(scn_dir: str, work: Path, orders: list, seed: int, hold: float
 
 
 def serial_reference(scns: dict, root: Path) -> dict:
-    """(bak, boot) -> {results, rows}: what a single process obtains and leaves."""
+    """(bak, boot, prov) -> {results, rows}: what a single process obtains and leaves."""
     ref = {}
-    for (bak, boot), d in scns.items():
+    for (bak, boot, prov), d in scns.items():
         work = root / "serial"
         trace, finals, store = run_free(d, work, 1, [titles()], False, 1, [0])
         f = finals[0]
@@ -832,7 +950,7 @@ def serial_reference(scns: dict, root: Path) -> dict:
         want_tag = "v=B;" if bak else "v=M;"
         if not all(want_tag in v for v in f["results"].values()):
             raise RuntimeError("serial reference does not show the expected page version: " + json.dumps(f["results"]))
-        ref[(bak, boot)] = {"results": f["results"], "rows": store["rows"]}
+        ref[(bak, boot, prov)] = {"results": f["results"], "rows": store["rows"], "jm": journal_mode_of(work / DBNAME)}
         shutil.rmtree(work, ignore_errors=True)
     return ref
 
@@ -855,13 +973,13 @@ def replay_chunk(chunk):
     try:
         for cid, case in chunk:
             scn = case["scn"]
-            key = (bool(scn["bak"]), bool(scn["boot"]))
+            key = scn_key(scn)
             n = len(case["res"])
             rng = random.Random(common.seed() * 7919 + cid)
             orders = [rng.sample(titles(), NPAGES) for _ in range(n)]
             sched = [(e["p"], e["l"]) for e in case["sched"]]
             try:
-                trace, finals, store, diverged = run_controlled(scns[key], wd / "d", n, sched, orders, bool(scn["cursor"]), cid,
+                trace, finals, store, diverged = run_controlled(scns[key], wd / "d", n, sched, orders, cursors_of(scn, n), cid,
                                                                 drv={"boot": bool(scn["boot"])} if scn.get("drv") else None)
             except RuntimeError as e:
                 out.append({"cid": cid, "error": str(e)})
@@ -869,6 +987,7 @@ def replay_chunk(chunk):
             real = [classify_worker(f, ref[key]["results"], o) for f, o in zip(finals, orders)]
             out.append({"cid": cid, "trace": trace, "real": real, "store_ok": store_ok(store, ref[key]), "diverged": diverged,
                         "orders": orders, "excs": [f and f["exc"] for f in finals], "drv_exc": finals.drv_exc,
+                        "jm_final": journal_mode_of(wd / "d" / DBNAME),
                         "store": None if store is None else {"npages": None if store["rows"] is None else len(store["rows"]), "integrity": store["integrity"]}})
     finally:
         shutil.rmtree(wd, ignore_errors=True)
@@ -904,17 +1023,20 @@ def stress_chunk(chunk):
     out = []
     wd = Path(tempfile.mkdtemp(prefix="c20s-", dir=str(root)))
     try:
-        for sid, n, bak, boot, cursor, lifemode, drv in chunk:
+        for sid, n, bak, boot, cursor, lifemode, drv, *more in chunk:
+            prov, rdr = more if more else ("built", 0)
+            scn = {"bak": bak, "boot": boot, "cursor": cursor, "drv": bool(drv), "prov": prov, "rdr": rdr}
+            key = scn_key(scn)
             orders, offsets, lives, drvp = stress_params(sid, n, boot, lifemode, drv)
             try:
-                trace, finals, store = run_free(scns[(bak, boot)], wd / "d", n, orders, cursor, sid, offsets, lives=lives, drv=drvp)
+                trace, finals, store = run_free(scns[key], wd / "d", n, orders, cursors_of(scn, n), sid, offsets, lives=lives, drv=drvp)
             except RuntimeError as e:
                 out.append({"sid": sid, "error": str(e)})
                 continue
-            real = [classify_worker(f, ref[(bak, boot)]["results"], o) for f, o in zip(finals, orders)]
-            out.append({"sid": sid, "n": n, "scn": {"bak": bak, "boot": boot, "cursor": cursor, "drv": bool(drv)}, "life": lifemode,
-                        "trace": trace, "real": real, "drv_exc": finals.drv_exc,
-                        "store_ok": store_ok(store, ref[(bak, boot)]), "excs": [f and f["exc"] for f in finals],
+            real = [classify_worker(f, ref[key]["results"], o) for f, o in zip(finals, orders)]
+            out.append({"sid": sid, "n": n, "scn": scn, "life": lifemode,
+                        "trace": trace, "real": real, "drv_exc": finals.drv_exc, "jm_final": journal_mode_of(wd / "d" / DBNAME),
+                        "store_ok": store_ok(store, ref[key]), "excs": [f and f["exc"] for f in finals],
                         "store": None if store is None else {"npages": None if store["rows"] is None else len(store["rows"]), "integrity": store["integrity"]}})
     finally:
         shutil.rmtree(wd, ignore_errors=True)
@@ -946,8 +1068,9 @@ def clean_events(trace, relaxed=False):
     completion time, for write/commit the whole duration; relaxed: the whole duration of
     every operation)."""
     if relaxed:
-        return [{"p": e["p"], "cls": e["cls"], "r": e["r"], "t0": e["w0"], "t1": e["w1"]} for e in trace]
-    return [{"p": e["p"], "cls": e["cls"], "r": e["r"], "t0": e.get("t0", i), "t1": e.get("t1", i)} for i, e in enumerate(trace, start=1)]
+        return [{"p": e["p"], "cls": e["cls"], "r": e["r"], "t0": e["w0"], "t1": e["w1"], "jm": e.get("jm", "")} for e in trace]
+    return [{"p": e["p"], "cls": e["cls"], "r": e["r"], "t0": e.get("t0", i), "t1": e.get("t1", i), "jm": e.get("jm", "")}
+            for i, e in enumerate(trace, start=1)]
 
 
 def explained_by(verdict) -> bool:
@@ -955,11 +1078,31 @@ def explained_by(verdict) -> bool:
     return bool(verdict) and not [b for b in verdict["bad"] if not (b["raced"] or b["snapfail"])] and (verdict["raced"] or verdict["snapfail"])
 
 
+def jm_text(verdict) -> str:
+    """The journal-mode observations of the performed trace that differ from the model, as text."""
+    obs = (verdict or {}).get("obs") or []
+    if not obs:
+        return ""
+    b = obs[0]
+    names = {"del": "rollback journal ('delete')", "wal": "WAL"}
+    return (f"; after the start-up script of worker {b['p']} the database file at the path was in journal mode "
+            f"{names.get(b['seen'], b['seen'])}, model: {names.get(b['model'], b['model'])} - every open (re-)establishes WAL, whatever file "
+            "is at the path (created, restored from a backup_db() backup, rollback-journal file); in rollback-journal mode "
+            "an open read cursor of one worker blocks the commit of another for the whole busy timeout")
+
+
 def judge(o: Outcome, case: dict, real: list, st_ok: bool, predicted, verdict, drift_only_trace=False):
     """predicted: {res, store, raced, snapfail} from Gen (or None); verdict: Trace_Workers verdict."""
     o.evaluations += 1
     drv_exc = case.get("drv_exc")   # the model: closing the creating context never fails
     holds = all(r == "ok" for r in real) and st_ok and not drv_exc
+    # conformance items beyond the statement (DRIFT only): the journal mode of the file
+    small = {k: case[k] for k in case if k != "performed"}
+    if verdict and verdict.get("obs"):
+        o.note_drift({"case": small, "why": "journal mode of the database file differs from the model" + jm_text(verdict), "obs": verdict["obs"][:3]})
+    jm_model = (predicted or verdict or {}).get("jm")
+    if case.get("jm_final") in ("wal", "del", "mixed") and jm_model in ("wal", "del") and case["jm_final"] != jm_model:
+        o.note_drift({"case": small, "why": f"journal mode of the database file the run leaves: {case['jm_final']}, model: {jm_model}"})
     if holds:
         if predicted and (any(r != "ok" for r in predicted["res"]) or not predicted["store"]):
             o.note_drift({"case": case, "why": "the model predicts a failure on this schedule, the real processes show none"})
@@ -1001,6 +1144,7 @@ def judge(o: Outcome, case: dict, real: list, st_ok: bool, predicted, verdict, d
             else:
                 first = (f"; first performed operation that is not a behaviour of the model: {b['cls']} of {who} -> {b['r']} "
                          f"({b['why']}; model: {b['expected']})")
+        first += jm_text(verdict)
         o.violation(dict(case, model=verdict), why + " (not explained by the as-is model" + first + ")",
                     cls="unexplained" if case.get("kind") != "V-stress" else "unexplained (free-running)")
     return "bad"
@@ -1025,6 +1169,67 @@ def pick(cases: list, budget: int, rng: random.Random) -> list:
     return out
 
 
+def pick_meet_first(cases: list, budget: int, rng: random.Random) -> list:
+    """Like pick(), for the provenance / reader-writer family: the classes in which a worker commits while
+    another worker's cursor is open (history flag `meet` of Gen_Workers) are served first."""
+    meet = [c for c in cases if c.get("meet")]
+    rest = [c for c in cases if not c.get("meet")]
+    first = pick(meet, budget, rng)
+    return first + pick(rest, budget - len(first), rng)
+
+
+TLC_JOB = r"""
+import json, sys
+sys.path.insert(0, sys.argv[1])
+import common
+specs = json.loads(sys.argv[2])
+out = []
+for sp in specs:
+    try:
+        r = common.tlc(sp["module"], sp["cfg"], workers=sp.get("workers", 1), timeout=sp.get("timeout", 900), check=False)
+        out.append({"name": sp["name"], "out": r.out, "rc": r.rc, "wall": r.wall})
+    except Exception as e:
+        out.append({"name": sp["name"], "error": repr(e)})
+json.dump(out, open(sys.argv[3], "w"))
+"""
+
+
+class TlcJob:
+    """TLC runs in a helper process while the parent does something else (results as TLCResult)."""
+
+    def __init__(self, specs: list):
+        import subprocess
+
+        self.specs = specs
+        self.dir = tempfile.mkdtemp(prefix="c20j-")
+        self.outp = os.path.join(self.dir, "out.json")
+        self.proc = subprocess.Popen([sys.executable, "-c", TLC_JOB, os.path.dirname(os.path.abspath(common.__file__)),
+                                      json.dumps(specs), self.outp], stdout=subprocess.DEVNULL, stderr=subprocess.PIPE)
+
+    def abandon(self) -> None:
+        if self.proc.poll() is None:
+            self.proc.kill()
+            self.proc.wait()
+        shutil.rmtree(self.dir, ignore_errors=True)
+
+    def results(self) -> dict:
+        try:
+            _, err = self.proc.communicate(timeout=3600)
+            if self.proc.returncode != 0:
+                raise common.TLCError("TLC helper process failed: " + (err or b"").decode(errors="replace")[-800:])
+            data = json.loads(Path(self.outp).read_text())
+        finally:
+            if self.proc.poll() is None:
+                self.proc.kill()
+            shutil.rmtree(self.dir, ignore_errors=True)
+        res = {}
+        for d in data:
+            if "error" in d:
+                raise common.TLCError(f"TLC helper: {d['name']}: {d['error']}")
+            res[d["name"]] = common.TLCResult(d["out"], d["rc"], d["wall"])
+        return res
+
+
 def run(tier: str) -> int:
     o = Outcome(PID, tier)
     thorough = tier == "thorough"
@@ -1033,6 +1238,9 @@ def run(tier: str) -> int:
         "page-work interleaving; every placement of the close_db_conn of the workers and of a creating context that is open "
         "when they start, at most one worker at work at a time) or 3 workers (simulation), replayed on real processes; sampled by seed so that every "
         "(scenario, predicted outcome, lifetime pattern) class is covered; distinct = distinct (scenario, performed operation trace); "
+        "J: Gen_Workers_prov(q): the same on databases of other provenance - restored from a backup that backup_db() of an earlier context of the real "
+        "library wrote, rollback-journal files - and with a single long-lived reader (worker 1 or 2 keeps the get_all_pages() cursor) beside writers; "
+        "classes in which a worker commits while another worker's cursor is open are sampled first; "
         "V: stress runs of 2..16 free workers (tight starts with contexts held open; staggered starts with contexts closing early), distinct by (n, scenario, outcome). Non-trivial = two workers' operations interleave."
     )
     o.assumptions = [
@@ -1040,12 +1248,39 @@ def run(tier: str) -> int:
         "consecutive operations of one class (reads, unlinks, scripts) of a process form one step",
         "offline Lua: Module:ustring:ustring and Module:libraryUtil are pure-Lua stand-ins stored in the test database",
         "every context ends with close_db_conn; the creating context (scenarios drv) exists only without a backup file",
-        "WAL journal mode (create_db sets it); busy timeout of the library's connections left at the sqlite3 default (5 s)",
+        "busy timeout of the library's connections left at the sqlite3 default (5 s)",
+        "journal mode: the model keeps it per database file; a library-made file is WAL, a file may also arrive in rollback-journal mode (prov = rbj: "
+        "fixture converted with PRAGMA journal_mode = DELETE); observed through the file header (bytes 18/19) after every start-up script",
     ]
     # ---- real runs first (the forking process must stay small) ------------------
     # schedules come from TLC, so generate them first but keep only what is needed
     rng = random.Random(common.seed() * 31 + 20)
     gens = []
+    # TLC runs that need nothing from the real runs go to a helper process (joined in section M)
+    side = [{"name": "Demo_Workers_rollback", "module": "MC_Workers", "cfg": "Demo_Workers_rollback.cfg", "workers": 4}]
+    if thorough:
+        side += [{"name": "Demo_Workers_rollback_rbj", "module": "MC_Workers", "cfg": "Demo_Workers_rollback_rbj.cfg", "workers": 4},
+                 {"name": "MC_dropsmode_alone_2", "module": "MC_Workers", "cfg": "MC_Workers_dropsmode_alone.cfg", "workers": 4},
+                 {"name": "MC_creatoronly_libfiles_2", "module": "MC_Workers", "cfg": "MC_Workers_creatoronly_lib.cfg", "workers": 4},
+                 {"name": "MC_ideal_3_all_provenances", "module": "MC_Workers", "cfg": "MC_Workers_ideal_T_P.cfg", "workers": 8},
+                 {"name": "MC_ideal_3_bootcheck_never_hits_all_provenances", "module": "MC_Workers", "cfg": "MC_Workers_ideal_never_P.cfg", "workers": 8}]
+    provcfg = "Gen_Workers_prov.cfg" if thorough else "Gen_Workers_provq.cfg"
+    jobs = {"gen": TlcJob([{"name": provcfg[:-4], "module": "Gen_Workers", "cfg": provcfg, "workers": 1}])}
+    try:
+        return _run(o, thorough, rng, gens, side, provcfg, jobs)
+    finally:
+        for j in jobs.values():   # only after a failure: helper processes still running, their scratch
+            j.abandon()
+
+
+def _run(o, thorough, rng, gens, side, provcfg, jobs):
+    t_last = [time.monotonic()]
+
+    def phase(name):
+        now = time.monotonic()
+        o.extra.setdefault("phase_s", {})[name] = round(now - t_last[0], 1)
+        t_last[0] = now
+
     for cfg, budget in (("Gen_Workers_startup.cfg", 9999 if thorough else 34), ("Gen_Workers_work.cfg", 9999 if thorough else 44),
                         ("Gen_Workers_life.cfg", 9999 if thorough else 40), ("Gen_Workers_life3.cfg", 600 if thorough else 0)):
         if not budget:
@@ -1063,12 +1298,35 @@ def run(tier: str) -> int:
     o.extra["generated_schedules"]["Sim_Workers(3 workers)"] = len(sim)
     gens += sim
     del r
+    r = jobs.pop("gen").results()[provcfg[:-4]]
+    if not r.ok:
+        raise common.TLCError("TLC did not complete cleanly on Gen_Workers/" + provcfg + "\n" + r.out[-1500:])
+    o.add_tlc(provcfg[:-4], r)
+    cases = r.cases
+    o.extra["generated_schedules"][provcfg[:-4]] = len(cases)
+    o.extra["generated_schedules"][provcfg[:-4] + ": commit meets a foreign open cursor"] = sum(1 for c in cases if c["meet"])
+    gens += pick_meet_first(cases, 9999 if thorough else 26, random.Random(common.seed() * 37 + 5))
+    del cases, r
+    jobs["side"] = TlcJob(side)
+    phase("generate schedules (TLC)")
     common.use_repo()
     with Scratch("c20-") as root:
         scns = build_scenarios(root)
+        o.extra["fixture_journal_modes"] = fixture_modes(scns)
         ref = serial_reference(scns, root)
         _G.update(scns=scns, ref=ref, root=str(root))
+        phase("fixtures + serial references")
+        # the model: backup_db() copies the file byte for byte (JmBak = mode of the source, a WAL database);
+        # a single process opening the files leaves a WAL database whatever their provenance
+        for k, d in sorted(scns.items()):
+            if k[2] == "lib" and journal_mode_of(Path(d) / BAKNAME) != "wal":
+                o.note_drift({"why": "the backup file written by backup_db() of the real library is not a WAL database (model: byte-for-byte copy "
+                              "of a WAL database)", "scenario": list(k), "journal_mode": journal_mode_of(Path(d) / BAKNAME)})
+            if ref[k]["jm"] != "wal":
+                o.note_drift({"why": "a single context that opened the scenario files left the database in another journal mode than WAL "
+                              "(model: every open (re-)establishes WAL)", "scenario": list(k), "journal_mode": ref[k]["jm"]})
         replays = pmap(replay_chunk, list(enumerate(gens)), nproc=8)
+        phase("schedule replays")
         # stress: 2..16 free-running workers
         nstress = 200 if thorough else 10
         srng = random.Random(common.seed() * 17 + 3)
@@ -1081,7 +1339,14 @@ def run(tier: str) -> int:
         for k in range(60 if thorough else 4):
             n = [3, 4, 6, 8][k % 4] if k < 8 else lrng.randint(2, 16)
             plan.append((10000 + k, n, False, lrng.random() < 0.4, lrng.random() < 0.3, "mixed", k % 4 != 3))
+        # provenance: free-running workers on a restored backup_db() backup / on rollback-journal files, one long-lived reader
+        prng = random.Random(common.seed() * 23 + 7)
+        for k in range(40 if thorough else 2):
+            n = [2, 4][k % 2] if k < 2 else prng.randint(2, 12)
+            prov = "lib" if k % 2 == 0 else "rbj"
+            plan.append((20000 + k, n, prov == "lib" or prng.random() < 0.5, prng.random() < 0.4, True, "hold", False, prov, prng.randint(1, min(n, 2))))
         stress = pmap(stress_chunk, plan, nproc=3, chunk=1)
+        phase("stress runs")
         # ---- contended first write (spec/LockWait.tla): the waiting worker must get the lock
         lw = tlc("LockWait", "MC_LockWait.cfg", workers=1)
         o.add_tlc("MC_LockWait (NeverLocked, EventuallyWrites)", lw)
@@ -1090,7 +1355,7 @@ def run(tier: str) -> int:
             raise common.TLCError("Demo_LockWait_short lost its counterexample")
         holds = sorted({int(l.split(",")[1].strip(" >")) for l in lw.out.splitlines() if l.startswith('<<"CASE"')})
         chosen = [h for h in holds if h in ((3, 12, 20) if thorough else (3, 12))]
-        key = (False, False)
+        key = (False, False, "built")
         for hold in chosen:
             rngc = random.Random(common.seed() * 13 + hold)
             orders = [rngc.sample(titles(), NPAGES) for _ in range(2)]
@@ -1107,6 +1372,7 @@ def run(tier: str) -> int:
                 o.violation({"kind": "contended-write", "hold_s": hold / 10.0, "real": real, "excs": [f and f["exc"] for f in finals]},
                             f"worker 2 attempted its first write while worker 1 held the write lock for {hold / 10.0:.1f} s: outcome {real} (a waiting writer must get the lock: LockWait.NeverLocked)",
                             cls="contended-write")
+    phase("contended write")
     # ---- M ------------------------------------------------------------------------
     r = tlc("MC_Workers", "MC_Workers_ideal.cfg", workers=16, timeout=900, coverage=True)
     o.add_tlc("MC_ideal_2", r)
@@ -1123,6 +1389,16 @@ def run(tier: str) -> int:
         o.extra.setdefault("demo_counterexample_found", {})[demo[:-4]] = bool(d.invariant_violated)
         if not d.invariant_violated:
             raise common.TLCError(f"{demo} no longer shows the counterexample (vacuity guard)")
+    # journal mode: counterexamples of the hypothetical deviations, and each half alone is harmless on library-made files
+    sres = jobs.pop("side").results()
+    for name, d in sres.items():
+        o.add_tlc(name, d)
+        if name.startswith("Demo_"):
+            o.extra["demo_counterexample_found"][name] = bool(d.invariant_violated)
+            if "NoFailure" not in d.invariant_violated:
+                raise common.TLCError(f"{name} no longer shows the counterexample (vacuity guard)")
+        elif not d.ok:
+            raise common.TLCError(f"TLC did not complete cleanly on {name}\n" + d.out[-1500:])
     d = tlc("MC_Workers", "Demo_Workers_restorerace.cfg", workers=4, check=False, coverage=True, extra=["-continue"])
     for a in ("Unlink", "Rename"):  # these steps exist only in the check-then-act design
         cov[a] = d.coverage_actions().get(a, (0, 0))[1]
@@ -1130,6 +1406,7 @@ def run(tier: str) -> int:
     never = [a for a, n in cov.items() if n == 0]
     if never:
         o.extra["vacuity_warning"] = never
+    phase("model checking + demos (TLC)")
     # ---- V: validate every performed trace ---------------------------------------
     items = []
     for rp in replays:
@@ -1151,7 +1428,7 @@ def run(tier: str) -> int:
         case = gens[rp["cid"]]
         v = verdicts[i + 1]
         cj = {"kind": "G", "scn": case["scn"], "workers": len(case["res"]), "sched": [[e["p"], e["l"]] for e in case["sched"]],
-              "orders": rp["orders"], "store": rp["store"], "excs": rp["excs"], "drv_exc": rp["drv_exc"], "performed": clean_events(rp["trace"])}
+              "orders": rp["orders"], "store": rp["store"], "excs": rp["excs"], "drv_exc": rp["drv_exc"], "jm_final": rp["jm_final"], "performed": clean_events(rp["trace"])}
         res = judge(o, cj, rp["real"], rp["store_ok"], case, v)
         stats["replay_" + res] += 1
         if rp["diverged"]:
@@ -1180,7 +1457,7 @@ def run(tier: str) -> int:
     for j, st in enumerate(stress):
         v = verdicts[nrep + j + 1]
         cj = {"kind": "V-stress", "scn": st["scn"], "workers": st["n"], "seed_id": st["sid"], "life": st["life"], "store": st["store"],
-              "excs": st["excs"], "drv_exc": st["drv_exc"], "real": st["real"]}
+              "excs": st["excs"], "drv_exc": st["drv_exc"], "jm_final": st["jm_final"], "real": st["real"]}
         # free-running: the linearisation is approximate; use it only to explain failures
         res = judge(o, cj, st["real"], st["store_ok"], None, v)
         stats["stress_" + res] += 1
@@ -1188,6 +1465,7 @@ def run(tier: str) -> int:
             o.note_drift({"why": "linearised stress trace is not a behaviour of the model (approximate linearisation)", "n": st["n"], "first": v["bad"][:2]})
         o.shape(("V", st["n"], json.dumps(st["scn"], sort_keys=True), st["life"], tuple(sorted(set(st["real"]))), st["store_ok"]))
     o.extra["judged"] = stats
+    phase("trace validation (TLC) + judging")
     o.extra["stress_workers"] = sorted({st["n"] for st in stress})
     if replays:
         rp = replays[0]
@@ -1211,10 +1489,10 @@ def replay(path: str) -> int:
     with Scratch("c20r-") as root:
         scns = build_scenarios(root)
         ref = serial_reference(scns, root)
-        key = (bool(case["scn"]["bak"]), bool(case["scn"]["boot"]))
+        key = scn_key(case["scn"])
         if case["kind"] == "G":
             sched = [(p, l) for p, l in case["sched"]]
-            trace, finals, store, diverged = run_controlled(scns[key], root / "d", case["workers"], sched, case["orders"], bool(case["scn"]["cursor"]), 1,
+            trace, finals, store, diverged = run_controlled(scns[key], root / "d", case["workers"], sched, case["orders"], cursors_of(case["scn"], case["workers"]), 1,
                                                             drv={"boot": key[1]} if case["scn"].get("drv") else None)
             real = [classify_worker(f, ref[key]["results"], o_) for f, o_ in zip(finals, case["orders"])]
             for e in trace:
@@ -1222,10 +1500,12 @@ def replay(path: str) -> int:
         else:
             n = case["workers"]
             orders, offsets, lives, drvp = stress_params(case["seed_id"], n, key[1], case.get("life", "hold"), bool(case["scn"].get("drv")))
-            trace, finals, store = run_free(scns[key], root / "d", n, orders, bool(case["scn"]["cursor"]), case["seed_id"], offsets, lives=lives, drv=drvp)
+            trace, finals, store = run_free(scns[key], root / "d", n, orders, cursors_of(case["scn"], n), case["seed_id"], offsets, lives=lives, drv=drvp)
             real = [classify_worker(f, ref[key]["results"], o_) for f, o_ in zip(finals, orders)]
         print("workers:", real, "exceptions:", [f and f["exc"] for f in finals], "creating context:", finals.drv_exc)
-        print("store unchanged:", store_ok(store, ref[key]), None if store is None else store["integrity"])
+        print("store unchanged:", store_ok(store, ref[key]), None if store is None else store["integrity"],
+              "; journal mode of the file at the path:", journal_mode_of(root / "d" / DBNAME) or "-",
+              "; after the start-up scripts:", [(e["p"], e.get("jm")) for e in trace if e["cls"] == "script"])
         return 1 if any(r != "ok" for r in real) or not store_ok(store, ref[key]) or finals.drv_exc else 0
 
 
